@@ -16,7 +16,7 @@ ID = 'C16'
 LEVEL = 'model_checking'
 TECHNIQUE = ('bounded exhaustive enumeration of scope-nesting shapes x binding constructs on the real scope walk / scope_symbols, '
              "judged by CPython's symtable (twin program for PEP 709) and a reference scoping model validated against symtable")
-LEVEL_TEXT = ('every nesting of {def, async def, class, lambda, list/set/dict comprehension, generator expression} up to depth 3, each '
+LEVEL_TEXT = ('every nesting of {def, async def, class, lambda, list/set/dict comprehension, generator expression} up to depth 4 (thorough: 5), each '
               'scope carrying every binding construct (parameters of all kinds, defaults, annotations, decorators, bases, global/'
               'nonlocal, augmented and annotated assignment, for/with/import/except-as/match captures/walrus/del), is analysed by '
               'the real code in every scope and compared name-by-name and class-by-class with symtable')
@@ -26,8 +26,8 @@ RULE = ('enum: case = (program shape, scope); non-trivial = distinct (program, s
         'scopes analysed; traces = scopes compared with symtable')
 ASSUMPTIONS = ['programs are generated so that every scope starts on its own line (scope matching by kind+line)',
                'type parameter scopes (PEP 695) are outside the generated alphabet']
-BOUNDS = {'quick': 'all shapes of depth <= 3 over 6 scope kinds (258 programs), again with the nested expression scope placed directly as first / second iterable of its comprehension, + 14 hand-written construct programs; every scope',
-          'thorough': '8 scope kinds, depth <= 3 (584 programs) with two soup variants'}
+BOUNDS = {'quick': 'all shapes of depth <= 4 over 10 scope kinds (def, async def, class with / without bases, lambda with / without defaults, four comprehension kinds), again with the nested expression scope placed directly as first / second iterable of its comprehension, + 15 hand-written construct programs; every scope',
+          'thorough': 'the same to depth <= 5'}
 
 EXPR_KINDS = ('lambda', 'lambda0', 'listcomp', 'genexp', 'setcomp', 'dictcomp')
 STMT_KINDS = ('def', 'class', 'classkw', 'asyncdef')
@@ -383,9 +383,8 @@ def _kind_of(name):
 
 
 def shards(tier):
-    kinds = ('def', 'class', 'classkw', 'lambda', 'lambda0', 'listcomp', 'genexp', 'dictcomp') if tier == 'quick' else \
-        ('def', 'asyncdef', 'class', 'classkw', 'lambda', 'lambda0', 'listcomp', 'setcomp', 'genexp', 'dictcomp')
-    sh = list(shapes(kinds, 3))
+    kinds = ('def', 'asyncdef', 'class', 'classkw', 'lambda', 'lambda0', 'listcomp', 'setcomp', 'genexp', 'dictcomp')
+    sh = list(shapes(kinds, 4 if tier == 'quick' else 5))
     out = [{'shapes': [list(s) for s in sh[i:i + 8]]} for i in range(0, len(sh), 8)]
     comps = ('listcomp', 'genexp', 'setcomp', 'dictcomp')
     shp = [s for s in sh if any(a in comps for a in s[:-1])]  # a comprehension with a nested expression scope
